@@ -33,8 +33,9 @@ static bool rd_atts(Rd &r, int w, std::vector<Att> &out, const std::string &ctx)
         int ts = type_size(a.type);
         if (!ts || (r.f.version < 5 && a.type > 6)) { r.f.problems.push_back(ctx + ": attribute '" + a.name + "' has invalid type " + std::to_string(a.type)); r.ok = false; break; }
         a.nelems = r.nonneg(w, "attribute nelems"); if (!r.ok) break;
+        if (a.nelems > (1LL << 40)) { r.ok = false; r.f.problems.push_back(ctx + ": attribute '" + a.name + "' element count unreasonable"); break; }
         long long nb = a.nelems * ts, padded = (nb + 3) / 4 * 4;
-        if (a.nelems > (1LL << 40) || !r.need(padded)) { r.ok = false; r.f.problems.push_back(ctx + ": attribute '" + a.name + "' values truncated"); break; }
+        if (!r.need(padded)) { r.ok = false; r.f.problems.push_back(ctx + ": attribute '" + a.name + "' values truncated"); break; }
         a.raw.resize((size_t)nb); for (long long k = 0; k < nb; k++) a.raw[(size_t)k] = r.img.at(r.pos + k);
         r.pos += padded; out.push_back(a);
     }
@@ -73,7 +74,7 @@ bool decode_header(const sim::Image &img, File &f) {
                 if (d >= (long long)f.dims.size()) { f.problems.push_back("variable '" + v.name + "' refers to undefined dimension " + std::to_string(d)); r.ok = false; break; }
                 v.dimids.push_back(d); v.shape.push_back(f.dims[(size_t)d].len);
                 if (f.dims[(size_t)d].len == 0) { if (k != 0) { f.problems.push_back("variable '" + v.name + "': unlimited dimension not first"); } v.isrec = true; }
-                else v.nelems_per_rec *= f.dims[(size_t)d].len;
+                else { if (v.nelems_per_rec > 0 && f.dims[(size_t)d].len > (1LL << 40) / v.nelems_per_rec) v.nelems_per_rec = -1; else if (v.nelems_per_rec >= 0) v.nelems_per_rec *= f.dims[(size_t)d].len; }
             }
             if (!r.ok) break;
             if (!rd_atts(r, w, v.atts, "variable '" + v.name + "'")) break;
